@@ -33,6 +33,7 @@ KitInit == l = 1 /\ ok = TRUE /\ used = {} /\ TLCSet(1, 0)
 IsEvent(name) == l <= N /\ ok /\ Trace[l].ev = name /\ l' = l + 1 /\ ok' = ok
 Strict == used' = used
 Deviate(d) == d \in KF /\ used' = used \cup {d}
+DeviateAll(S) == S \subseteq KF /\ used' = used \cup S   \* S = {} is the strict case
 
 IsReset == l <= N /\ Trace[l].ev = "reset" /\ l' = l + 1 /\ ok' = TRUE /\ used' = {}
 
